@@ -251,6 +251,9 @@ class LibMap:
         if name in ("size",):
             return "%s->n" % em.paren(p) if re.fullmatch(r"&?[\w.>-]+", p) else "%ssize(%s)" % (f, p)
         if name == "empty":
+            if re.fullmatch(r"&?[\w.>-]+", p):
+                # direct field read, like size(): a call in a loop guard defeats dfcc's loop-contract instrumentation
+                return "(%s->n == 0)" % em.paren(p)
             return "(%ssize(%s) == 0)" % (f, p)
         if name == "front":
             return "(*%sat(%s, 0))" % (f, p)
